@@ -3249,3 +3249,19 @@ fn format_type_mismatch(expected_ty: &Type, actual_ty: &Type) -> ErrorMessage {
 
     ErrorMessage(parts)
 }
+
+#[cfg(wilfred_garden_verif)]
+pub(crate) fn verif_unify(ty_1: &Type, ty_2: &Type) -> Option<Type> {
+    unify(ty_1, ty_2)
+}
+
+#[cfg(wilfred_garden_verif)]
+pub(crate) fn verif_unify_all(tys: &[Type]) -> Option<Type> {
+    let path = std::path::PathBuf::from("/verif_hook/types.gdn");
+    let (_vfs, vfs_path) = crate::parser::vfs::Vfs::singleton(path, String::new());
+    let with_pos: Vec<(Type, Position)> = tys
+        .iter()
+        .map(|t| (t.clone(), Position::todo(&vfs_path)))
+        .collect();
+    unify_all(&with_pos).ok()
+}
